@@ -795,6 +795,10 @@ func runSeq(s shape, kinds []reqKind, seq []int, idxMode int, step *int32) (key,
 // A digest request takes microseconds; one that has not returned after seqWatchdog
 // (generous for a loaded machine) is confirmed once in a fresh process before it is
 // reported as a request that never returns.
+// hangConfirmed is set once some request was confirmed never to return: later
+// families then do not issue requests of that kind on an object they reuse.
+var hangConfirmed int32
+
 var (
 	seqWatchdog     = 30 * time.Second
 	confirmWatchdog = 15 * time.Second
@@ -960,6 +964,7 @@ func familyOrder(r *ev.Run, c *counters, samples *ev.Samples) (seqs int64, serve
 								hb.mu.Unlock()
 								if ok {
 									atomic.StoreInt32(&hb.any, 1)
+									atomic.StoreInt32(&hangConfirmed, 1)
 								}
 							})
 							if hb.isConfirmed(key) {
@@ -1087,6 +1092,8 @@ func bufferCodes() []codeT {
 	return l
 }
 
+var skippedBuf int64
+
 func familyBuffers(r *ev.Run, c *counters, samples *ev.Samples) {
 	var shs []shape
 	for _, s := range shapes() {
@@ -1207,34 +1214,56 @@ func familyBuffers(r *ev.Run, c *counters, samples *ev.Samples) {
 							if ext != nil {
 								rep.Ext = &extJ{LeafHash: leaf[:], CodeSep: 3}
 							}
-							for call := 0; call < 3; call++ {
-								ed := &btc.ScriptExecutionData{M_annex_hash: ga.arg, M_tapleaf_hash: gl.arg, M_codeseparator_pos: 3, M_codeseparator_pos_init: true}
-								var got []byte
-								var pan string
-								func() {
-									defer func() {
-										if r := recover(); r != nil {
-											pan = fmt.Sprint(r)
-										}
+							if !ok && atomic.LoadInt32(&hangConfirmed) != 0 {
+								atomic.AddInt64(&skippedBuf, 1)
+								continue // such a request is already known to wedge the object
+							}
+							ord := order
+							done := make(chan struct{})
+							go func() {
+								defer close(done)
+								for call := 0; call < 3; call++ {
+									ed := &btc.ScriptExecutionData{M_annex_hash: ga.arg, M_tapleaf_hash: gl.arg, M_codeseparator_pos: 3, M_codeseparator_pos_init: true}
+									var got []byte
+									var pan string
+									func() {
+										defer func() {
+											if r := recover(); r != nil {
+												pan = fmt.Sprint(r)
+											}
+										}()
+										got = g.TaprootSigHash(ed, idx, byte(ht), withExt)
 									}()
-									got = g.TaprootSigHash(ed, idx, byte(ht), withExt)
-								}()
-								if pan != "" {
-									c.report(order, "buffers/taproot/panic:"+short(pan), "digest request panicked: "+pan, rep)
-									break
-								}
-								if (ok && !bytes.Equal(got, want[:])) || (!ok && len(got) != 0) {
-									k := "buffers/taproot/repeated-request-differs-from-reference"
-									if call == 0 {
-										k = "buffers/taproot/first-request-differs-from-reference"
+									if pan != "" {
+										c.report(ord, "buffers/taproot/panic:"+short(pan), "digest request panicked: "+pan, rep)
+										return
 									}
-									c.report(order, k, fmt.Sprintf("call %d of 3 on the same Tx object returned %x, reference %x (defined=%v)", call+1, got, want, ok), rep)
-									break
+									if (ok && !bytes.Equal(got, want[:])) || (!ok && len(got) != 0) {
+										k := "buffers/taproot/repeated-request-differs-from-reference"
+										if call == 0 {
+											k = "buffers/taproot/first-request-differs-from-reference"
+										}
+										c.report(ord, k, fmt.Sprintf("call %d of 3 on the same Tx object returned %x, reference %x (defined=%v)", call+1, got, want, ok), rep)
+										return
+									}
+									if d := ga.damage() + gl.damage(); d != "" {
+										c.report(ord, "buffers/taproot/execdata-"+d, "annex hash / tapleaf hash bytes of the caller changed", rep)
+										return
+									}
 								}
-								if d := ga.damage() + gl.damage(); d != "" {
-									c.report(order, "buffers/taproot/execdata-"+d, "annex hash / tapleaf hash bytes of the caller changed", rep)
-									break
+							}()
+							select {
+							case <-done:
+							case <-time.After(seqWatchdog):
+								rep.Family = "buffers-taproot"
+								key := "buffers/taproot/repeated-request-never-returns"
+								if confirmInFreshProcess(rep, key) {
+									c.report(ord, key, fmt.Sprintf("the same TaprootSigHash request (hash type 0x%02x) repeated on one Tx object never returns (confirmed in a fresh process)", ht), rep)
+									atomic.StoreInt32(&hangConfirmed, 1)
+								} else {
+									r.Unrepro = append(r.Unrepro, key+": not reproduced in a fresh process")
 								}
+								continue
 							}
 							if !bytes.Equal(fp, txFingerprint(g)) {
 								c.report(order, "buffers/taproot/transaction-modified", "the transaction object's scripts/values changed during a digest request", rep)
@@ -1248,7 +1277,10 @@ func familyBuffers(r *ev.Run, c *counters, samples *ev.Samples) {
 		}()
 	}
 	wg.Wait()
-	samples.Add(map[string]interface{}{"family": "v", "script_codes": len(codes), "shapes": len(shs), "calls_per_member": 3, "hash_types": len(hts)})
+	if skippedBuf > 0 {
+		r.Capped = true
+	}
+	samples.Add(map[string]interface{}{"family": "v", "skipped_after_a_confirmed_never-returning_request": skippedBuf, "script_codes": len(codes), "shapes": len(shs), "calls_per_member": 3, "hash_types": len(hts)})
 }
 
 // ---------------------------------------------------------------------------
@@ -2042,6 +2074,35 @@ func replay(file string) {
 			k, what = "bip143/script-code-argument-modified", fmt.Sprintf("scriptCode argument %x became %x", []byte(cj.ScriptCode), arg)
 		}
 		fail(k, what)
+	case "buffers-taproot":
+		g := toGocoin(t, spent)
+		var ax []byte
+		if cj.Annex != nil {
+			ax = []byte(*cj.Annex)
+		}
+		var ext *refhash.TapExt
+		if cj.Ext != nil {
+			ext = &refhash.TapExt{CodeSepPos: cj.Ext.CodeSep}
+			copy(ext.LeafHash[:], cj.Ext.LeafHash)
+		}
+		wd := seqWatchdog
+		if v := os.Getenv("C02_REPLAY_WATCHDOG"); v != "" {
+			if d, err := time.ParseDuration(v); err == nil {
+				wd = d
+			}
+		}
+		for call := 1; call <= 3; call++ {
+			ch := make(chan []byte, 1)
+			go func() { d, _ := callTaproot(g, cj.Idx, byte(cj.HashType), ax, ext); ch <- d }()
+			select {
+			case d := <-ch:
+				fmt.Fprintf(ev.Out, "  call %d: %x\n", call, d)
+			case <-time.After(wd):
+				fmt.Fprintf(ev.Out, "  call %d on the same Tx object never returns (no answer within %v)\n", call, wd)
+				fail(rec.Key, "request never returns")
+			}
+		}
+		fail("", "")
 	case "buffers-legacy", "buffers-bip143":
 		g := toGocoin(t, spent)
 		gb := guard(cj.ScriptCode)
